@@ -128,7 +128,14 @@ def keyword_from_hash(kw_hash: int, name: str, ns: str | None = None) -> Keyword
 
     with _LOCK:
         found = _INTERN.val_at(kw_hash)
-        if found:
+        if found is not None and found._name == name and found._ns == ns:
+            return found
+        # The pre-computed hash may come from another process (cached bytecode, a
+        # pickle) whose string hash seed differs from ours: never intern under a
+        # foreign hash, or the same keyword would exist twice in this process.
+        kw_hash = hash_kw(name, ns)
+        found = _INTERN.val_at(kw_hash)
+        if found is not None and found._name == name and found._ns == ns:
             return found
         kw = Keyword(name, ns=ns)
         _INTERN = _INTERN.assoc(kw_hash, kw)
